@@ -32,3 +32,82 @@ MUTANTS = [
     {"id": "C02-benign-saturating", "prop": "C02", "benign": True,
      "edits": [("src/decoder.rs", "            row: nums.next()?.checked_sub(1)?,", "            row: nums.next()?.saturating_sub(1),")]},
 ]
+
+
+# ---- robustness: behaviour-preserving refactorings the lemma rules (UTF8-CAP, TAGGED-ACCEPT, GRAM-EVENHEX, RAW-NONEMPTY) must see through, and near misses
+_D = "src/decoder.rs"
+_RAW_EV = ("                if reject.is_empty() {\n                    return None;\n                }\n                tracing::info!(\n                    \"[TTYEventDecoder.decode] unhandled: {:?}\",\n"
+           "                    String::from_utf8_lossy(&reject)\n                );\n                Some(TerminalEvent::Raw(reject.into_vec()))")
+MUTANTS += [
+    {"id": "C02-benign-utf8-push-commuted", "prop": "C02", "benign": True,
+     "edits": [(_D, "        self.buffer[self.offset] = byte;\n        self.offset += 1;", "        self.buffer[self.offset] = byte;\n        self.offset = 1 + self.offset;")]},
+    {"id": "C02-benign-utf8-reset-spelled-out-in-consume", "prop": "C02", "benign": True,
+     "edits": [(_D, "        let result = utf8_decode(&self.buffer[..self.offset]);\n        self.reset();\n        result",
+                "        let result = utf8_decode(&self.buffer[..self.offset]);\n        self.offset = 0;\n        self.state = UTF8DFA.start();\n        result")]},
+    {"id": "C02-benign-utf8-accept-helper", "prop": "C02", "benign": True,
+     "edits": [(_D, "                    self.push(*byte);\n                    buf.consume(consume);\n                    return Ok(Some(self.consume()));",
+                "                    let decoded = self.accept(*byte);\n                    buf.consume(consume);\n                    return Ok(Some(decoded));"),
+               (_D, "    fn reset(&mut self) {\n        self.state = UTF8DFA.start();", "    fn accept(&mut self, last: u8) -> char {\n        self.push(last);\n        self.consume()\n    }\n\n    fn reset(&mut self) {\n        self.state = UTF8DFA.start();")]},
+    {"id": "C02-benign-utf8-dead-arm-helper", "prop": "C02", "benign": True,
+     "edits": [(_D, "                    use std::io::{Error, ErrorKind};\n                    self.reset();\n                    buf.consume(consume);\n                    return Err(Error::new(ErrorKind::InvalidInput, \"utf8 decoder failed\"));",
+                "                    buf.consume(consume);\n                    return Err(self.fail());"),
+               (_D, "    fn reset(&mut self) {\n        self.state = UTF8DFA.start();", "    fn fail(&mut self) -> std::io::Error {\n        use std::io::{Error, ErrorKind};\n        self.reset();\n        Error::new(ErrorKind::InvalidInput, \"utf8 decoder failed\")\n    }\n\n    fn reset(&mut self) {\n        self.state = UTF8DFA.start();")]},
+    {"id": "C02-benign-raw-len-guard", "prop": "C02", "benign": True,
+     "edits": [(_D, _RAW_EV, _RAW_EV.replace("if reject.is_empty() {", "if reject.len() == 0 {"))]},
+    {"id": "C02-benign-raw-positive-guard", "prop": "C02", "benign": True,
+     "edits": [(_D, _RAW_EV, "                if 0 < reject.len() {\n                    tracing::info!(\n                        \"[TTYEventDecoder.decode] unhandled: {:?}\",\n                        String::from_utf8_lossy(&reject)\n                    );\n"
+                "                    Some(TerminalEvent::Raw(reject.to_vec()))\n                } else {\n                    None\n                }")]},
+    {"id": "C02-benign-hex-hoisted-nibbles", "prop": "C02", "benign": True,
+     "edits": [(_D, "        .map(move |pair| Some((value(pair[0])? << 4) | value(pair[1])?))", "        .map(move |digits| {\n            let high = value(digits[0])?;\n            let low = value(digits[1])?;\n            Some((high << 4) | low)\n        })")]},
+    {"id": "C02-benign-tagged-index-renamed", "prop": "C02", "benign": True,
+     "edits": [(_D, "        let automata = NFA::choice(matchers.iter().enumerate().map(|(index, matcher)| {\n            match matcher.matcher() {\n                Either::Left(automata) => {\n                    automata\n"
+                "                        // this call only here to convert type as [Void] cannot be created\n                        .tags_map(|_| MatcherTag::Matcher(index))\n                        .tag_stop_state(MatcherTag::Matcher(index))\n                }\n"
+                "                Either::Right(automata) => automata.tags_map(MatcherTag::Item),\n            }\n        }))",
+                "        let automata = NFA::choice(matchers.iter().enumerate().map(|entry| {\n            let (position, matcher) = entry;\n            match matcher.matcher() {\n                Either::Right(automata) => automata.tags_map(MatcherTag::Item),\n"
+                "                Either::Left(automata) => {\n                    let tag = MatcherTag::Matcher(position);\n                    automata\n                        .tags_map(|_| MatcherTag::Matcher(position))\n                        .tag_stop_state(tag)\n                }\n"
+                "            }\n        }))")]},
+    # near misses: must be reported
+    {"id": "C02-utf8-push-before-transition", "prop": "C02", "expect": "UTF8-CAP",
+     "edits": [(_D, "            consume += 1;\n            match UTF8DFA.transition(self.state, *byte) {", "            consume += 1;\n            self.push(*byte);\n            match UTF8DFA.transition(self.state, *byte) {"),
+               (_D, "                Some(state) if UTF8DFA.info(state).is_accepting => {\n                    self.push(*byte);\n", "                Some(state) if UTF8DFA.info(state).is_accepting => {\n"),
+               (_D, "                Some(state) => {\n                    self.push(*byte);\n                    self.state = state;", "                Some(state) => {\n                    self.state = state;")]},
+    {"id": "C02-utf8-offset-plus-two", "prop": "C02", "expect": "UTF8-CAP",
+     "edits": [(_D, "        self.buffer[self.offset] = byte;\n        self.offset += 1;", "        self.buffer[self.offset] = byte;\n        self.offset += 2;")]},
+    {"id": "C02-utf8-consume-keeps-offset", "prop": "C02", "expect": "UTF8-CAP",
+     "edits": [(_D, "        let result = utf8_decode(&self.buffer[..self.offset]);\n        self.reset();\n        result",
+                "        let result = utf8_decode(&self.buffer[..self.offset]);\n        self.state = UTF8DFA.start();\n        result")]},
+    {"id": "C02-raw-guard-flipped", "prop": "C02", "expect": "RAW-NONEMPTY",
+     "edits": [(_D, _RAW_EV, _RAW_EV.replace("if reject.is_empty() {", "if !reject.is_empty() {"))]},
+    {"id": "C02-tagged-constant-index", "prop": "C02", "expect": "TAGGED-ACCEPT",
+     "edits": [(_D, "                        .tag_stop_state(MatcherTag::Matcher(index))", "                        .tag_stop_state(MatcherTag::Matcher(0))")]},
+]
+
+
+MUTANTS += [
+    {"id": "C02-benign-union-built-in-for-loop", "prop": "C02", "benign": True,
+     "edits": [("src/decoder.rs", '        let automata = NFA::choice(matchers.iter().enumerate().map(|(index, matcher)| {\n            match matcher.matcher() {\n                Either::Left(automata) => {\n                    automata\n                        // this call only here to convert type as [Void] cannot be created\n                        .tags_map(|_| MatcherTag::Matcher(index))\n                        .tag_stop_state(MatcherTag::Matcher(index))\n                }\n                Either::Right(automata) => automata.tags_map(MatcherTag::Item),\n            }\n        }))\n        .compile();\n', '        let mut alternatives = Vec::with_capacity(matchers.len());\n        for (index, matcher) in matchers.iter().enumerate() {\n            let alternative = match matcher.matcher() {\n                Either::Left(automata) => automata\n                    .tags_map(|_| MatcherTag::Matcher(index))\n                    .tag_stop_state(MatcherTag::Matcher(index)),\n                Either::Right(automata) => automata.tags_map(MatcherTag::Item),\n            };\n            alternatives.push(alternative);\n        }\n        let automata = NFA::choice(alternatives).compile();\n')]},
+]
+
+
+MUTANTS += [
+    {"id": "C02-benign-raw-shared-helper-map-ctor", "prop": "C02", "benign": True,
+     "edits": [("src/decoder.rs", '        let event = self\n            .matcher\n            .decode(buf)?\n            .transpose()\n            .unwrap_or_else(|reject| {\n                if reject.is_empty() {\n                    return None;\n                }\n                tracing::info!(\n                    "[TTYEventDecoder.decode] unhandled: {:?}",\n                    String::from_utf8_lossy(&reject)\n                );\n                Some(TerminalEvent::Raw(reject.into_vec()))\n            });\n', '        let event = match self.matcher.decode(buf)? {\n            None => None,\n            Some(Ok(event)) => Some(event),\n            Some(Err(reject)) => unhandled_bytes(reject).map(TerminalEvent::Raw),\n        };\n'), ("src/decoder.rs", '        let cmd = self\n            .matcher\n            .decode(buf)?\n            .transpose()\n            .unwrap_or_else(|reject| {\n                if reject.is_empty() {\n                    return None;\n                }\n                tracing::info!(\n                    "[TTYEventDecoder.decode] unhandled: {:?}",\n                    String::from_utf8_lossy(&reject)\n                );\n                Some(TerminalCommand::Raw(reject.into_vec()))\n            });\n', '        let cmd = match self.matcher.decode(buf)? {\n            None => None,\n            Some(Ok(cmd)) => Some(cmd),\n            Some(Err(reject)) => unhandled_bytes(reject).map(TerminalCommand::Raw),\n        };\n'), ("src/decoder.rs", '#[derive(Clone)]\nenum Void {}\n', '/// Bytes rejected by the matcher automata, `None` when there is nothing to report\nfn unhandled_bytes(reject: MatcherBuffer) -> Option<Vec<u8>> {\n    if reject.is_empty() {\n        return None;\n    }\n    tracing::info!(\n        "[TTYEventDecoder.decode] unhandled: {:?}",\n        String::from_utf8_lossy(&reject)\n    );\n    Some(reject.into_vec())\n}\n\n#[derive(Clone)]\nenum Void {}\n')]},
+    {"id": "C02-raw-shared-helper-wrong-guard", "prop": "C02", "expect": "RAW-NONEMPTY",
+     "edits": [("src/decoder.rs", '        let event = self\n            .matcher\n            .decode(buf)?\n            .transpose()\n            .unwrap_or_else(|reject| {\n                if reject.is_empty() {\n                    return None;\n                }\n                tracing::info!(\n                    "[TTYEventDecoder.decode] unhandled: {:?}",\n                    String::from_utf8_lossy(&reject)\n                );\n                Some(TerminalEvent::Raw(reject.into_vec()))\n            });\n', '        let event = match self.matcher.decode(buf)? {\n            None => None,\n            Some(Ok(event)) => Some(event),\n            Some(Err(reject)) => unhandled_bytes(reject).map(TerminalEvent::Raw),\n        };\n'), ("src/decoder.rs", '        let cmd = self\n            .matcher\n            .decode(buf)?\n            .transpose()\n            .unwrap_or_else(|reject| {\n                if reject.is_empty() {\n                    return None;\n                }\n                tracing::info!(\n                    "[TTYEventDecoder.decode] unhandled: {:?}",\n                    String::from_utf8_lossy(&reject)\n                );\n                Some(TerminalCommand::Raw(reject.into_vec()))\n            });\n', '        let cmd = match self.matcher.decode(buf)? {\n            None => None,\n            Some(Ok(cmd)) => Some(cmd),\n            Some(Err(reject)) => unhandled_bytes(reject).map(TerminalCommand::Raw),\n        };\n'), ("src/decoder.rs", '#[derive(Clone)]\nenum Void {}\n', '/// Bytes rejected by the matcher automata, `None` when there is nothing to report\nfn unhandled_bytes(reject: MatcherBuffer) -> Option<Vec<u8>> {\n    if reject.len() > 64 {\n        return None;\n    }\n    tracing::info!(\n        "[TTYEventDecoder.decode] unhandled: {:?}",\n        String::from_utf8_lossy(&reject)\n    );\n    Some(reject.into_vec())\n}\n\n#[derive(Clone)]\nenum Void {}\n')]},
+]
+
+
+MUTANTS += [
+    {"id": "C02-benign-number-decode-try-fold-ascii-guard", "prop": "C02", "benign": True,
+     "edits": [("src/decoder.rs", "    let mut result = 0usize;\n    for b in data.iter() {\n        match b {\n            b'0'..=b'9' => {\n                // numbers that do not fit are reported as unrecognized\n                result = result.checked_mul(10)?.checked_add((b - b'0') as usize)?;\n            }\n            _ => return None,\n        }\n    }\n    Some(result)\n}\n\n", "    data.iter().try_fold(0usize, |result, b| {\n        if !b.is_ascii_digit() {\n            return None;\n        }\n        // numbers that do not fit are reported as unrecognized\n        result.checked_mul(10)?.checked_add(usize::from(b - b'0'))\n    })\n}\n\n")]},
+    {"id": "C02-number-decode-try-fold-wrong-class", "prop": "C02", "expect": "number_decode",
+     "edits": [("src/decoder.rs", "    let mut result = 0usize;\n    for b in data.iter() {\n        match b {\n            b'0'..=b'9' => {\n                // numbers that do not fit are reported as unrecognized\n                result = result.checked_mul(10)?.checked_add((b - b'0') as usize)?;\n            }\n            _ => return None,\n        }\n    }\n    Some(result)\n}\n\n", "    data.iter().try_fold(0usize, |result, b| {\n        if !b.is_ascii_hexdigit() {\n            return None;\n        }\n        // numbers that do not fit are reported as unrecognized\n        result.checked_mul(10)?.checked_add(usize::from(b - b'A'))\n    })\n}\n\n")]},
+]
+
+
+MUTANTS += [
+    {"id": "C02-benign-utf8-push-inlined-by-hand", "prop": "C02", "benign": True,
+     "edits": [("src/decoder.rs", '                    self.push(*byte);\n                    buf.consume(consume);\n                    return Ok(Some(self.consume()));', '                    self.buffer[self.offset] = *byte;\n                    self.offset += 1;\n                    buf.consume(consume);\n                    return Ok(Some(self.consume()));'), ("src/decoder.rs", '                    self.push(*byte);\n                    self.state = state;', '                    self.buffer[self.offset] = *byte;\n                    self.offset += 1;\n                    self.state = state;'), ("src/decoder.rs", '    fn push(&mut self, byte: u8) {\n        self.buffer[self.offset] = byte;\n        self.offset += 1;\n    }\n\n', '')]},
+    {"id": "C02-utf8-push-inlined-store-after-increment", "prop": "C02", "expect": "Utf8Decoder",
+     "edits": [("src/decoder.rs", '                    self.push(*byte);\n                    buf.consume(consume);\n                    return Ok(Some(self.consume()));', '                    self.buffer[self.offset] = *byte;\n                    self.offset += 1;\n                    buf.consume(consume);\n                    return Ok(Some(self.consume()));'), ("src/decoder.rs", '                    self.push(*byte);\n                    self.state = state;', '                    self.state = state;\n                    self.offset += 1;\n                    self.buffer[self.offset] = *byte;'), ("src/decoder.rs", '    fn push(&mut self, byte: u8) {\n        self.buffer[self.offset] = byte;\n        self.offset += 1;\n    }\n\n', '')]},
+]
